@@ -359,6 +359,18 @@ def check_pickle(ctx):
         ctx.ob('R4', f_, f'decorators of {nm}', not memo, 'reads / writes the file on every call' if not memo else
                f'{nm} is memoised in-process (`@{memo[0]}`): after the cache file is rewritten or damaged the old object is still returned, a '
                f'damaged cache is never replaced')
+    # a custom __setstate__ may supply defaults for attributes missing from an old cache, but the pickled state must win
+    ss = ctx.p.functions.get(f'{TRAJ}.__setstate__')
+    if ss is not None and len(ss.node.args.args) >= 2:
+        st_name = ss.node.args.args[1].arg
+        for d_ in ast.walk(ss.node):
+            if isinstance(d_, ast.Dict) and any(k is None for k in d_.keys):
+                pos = [i for i, (k, v) in enumerate(zip(d_.keys, d_.values)) if k is None and isinstance(v, ast.Name) and v.id == st_name]
+                if pos and pos[-1] != len(d_.keys) - 1:
+                    ctx.ob('R4', ss, d_, False, f'`{norm_text(d_)}`: the entries after `**{st_name}` override the pickled attributes, so every load from the cache '
+                                                f'resets them: the trajectory read back is not the trajectory that was written')
+                elif pos:
+                    ctx.ob('R4', ss, d_, True, 'defaults first, pickled state last')
     fc = ctx.fn(f'{TRAJ}.from_cache')
     it = ctx.entry(fc.qualname)
     res = it.result
